@@ -1218,7 +1218,9 @@ func (t *tScreen) resize() {
 	if err != nil {
 		return
 	}
-	if ws.Width == t.w && ws.Height == t.h {
+	if cw, ch := t.cells.Size(); ws.Width == t.w && ws.Height == t.h && cw == t.w && ch == t.h {
+		// nothing changed; the buffer is checked as well because engage sizes it
+		// from the tty without going through here
 		return
 	}
 	t.cx = -1
